@@ -179,8 +179,8 @@ func trExecTask() string {
 		`if t\.Tci\.ControlMode == controlmode\.HOOK \{ return nil \}`,
 		`ProcessState\.Exited\(\) \{ return nil \}`,
 		`t\.pendingFinalTaskStateCh <- mesos\.TASK_KILLED`,
-		`pid := t\.taskCmd\.Process\.Pid`,
-		`syscall\.Kill\(-pid, syscall\.SIGKILL\)`)
+		`\w+ := t\.taskCmd\.Process\.Pid`,
+		`syscall\.Kill\(-\w+, syscall\.SIGKILL\)`)
 
 	// ---- basicTaskBase.Kill
 	bk := findFunc(fb, "basicTaskBase", "Kill")
@@ -199,9 +199,9 @@ func trExecTask() string {
 		die("exectask: startBasicTask not found")
 	}
 	etOrder("startBasicTask", etSrc(fsetB, sb),
-		`taskCmd\.Wait\(\)`, `pendingState := mesos\.TASK_FINISHED`, `pendingState = mesos\.TASK_FAILED`,
-		`processTerminatedOnItsOwn = true`,
-		`select \{ case pending := <-t\.pendingFinalTaskStateCh: pendingState = pending processTerminatedOnItsOwn = false default: \}`,
+		`taskCmd\.Wait\(\)`, `\w+ := mesos\.TASK_FINISHED`, `\w+ = mesos\.TASK_FAILED`,
+		`\w+ = true`,
+		`select \{ case \w+ := <-t\.pendingFinalTaskStateCh: \w+ = \w+ \w+ = false default: \}`,
 		`BASIC_TASK_TERMINATED`, `t\.sendDeviceEvent\(`)
 
 	// ---- ControllableTask.Kill / doTermIntKill / Launch reaper
@@ -210,26 +210,26 @@ func trExecTask() string {
 		die("exectask: ControllableTask.Kill not found")
 	}
 	etOrder("ControllableTask.Kill", etSrc(fsetC, ck),
-		`response, err := t\.rpc\.GetState\(`,
-		`for reachedState != "DONE" \{`,
+		`\w+, \w+ := t\.rpc\.GetState\(`,
+		`for \w+ != "DONE" \{`,
 		`case <-time\.After\(KILL_TRANSITION_TIMEOUT\)`,
 		`_ = t\.rpc\.Close\(\) t\.rpc = nil`,
-		`if reachedState == "DONE" \{`,
+		`if \w+ == "DONE" \{`,
 		`t\.pendingFinalTaskStateCh <- mesos\.TASK_FINISHED time\.Sleep\(DONE_TIMEOUT\)`,
 		`t\.pendingFinalTaskStateCh <- mesos\.TASK_KILLED`,
-		`if pidExists\(pid\) \{ return t\.doTermIntKill\(pid\) \}`)
+		`if pidExists\(\w+\) \{ return t\.doTermIntKill\(\w+\) \}`)
 	tk := findFunc(fc, "ControllableTask", "doTermIntKill")
 	if tk == nil {
 		die("exectask: doTermIntKill not found")
 	}
 	etOrder("doTermIntKill", etSrc(fsetC, tk),
-		`syscall\.Kill\(pid, syscall\.SIGTERM\)`,
+		`syscall\.Kill\(\w+, syscall\.SIGTERM\)`,
 		`time\.Sleep\(SIGTERM_TIMEOUT\)`,
-		`if pidExists\(pid\) \{`,
-		`syscall\.Kill\(pid, syscall\.SIGINT\)`,
+		`if pidExists\(\w+\) \{`,
+		`syscall\.Kill\(\w+, syscall\.SIGINT\)`,
 		`time\.Sleep\(SIGINT_TIMEOUT\)`,
-		`if !pidExists\(pid\) \{ return killErr \}`,
-		`return t\.doKill9\(pid\)`)
+		`if !pidExists\(\w+\) \{ return \w+ \}`,
+		`return t\.doKill9\(\w+\)`)
 	cl := findFunc(fc, "ControllableTask", "Launch")
 	if cl == nil {
 		die("exectask: ControllableTask.Launch not found")
@@ -238,15 +238,15 @@ func trExecTask() string {
 		`t\.pendingFinalTaskStateCh = make\(chan mesos\.TaskState, 1\)`,
 		`taskCmd\.Start\(\)`,
 		`t\.rpc = executorcmd\.NewClient\(`,
-		`response, err := t\.rpc\.GetState\(`,
-		`if reachedState == "STANDBY" && err == nil \{`,
-		`\} else if reachedState == "DONE" \|\| reachedState == "ERROR" \{`,
-		`\} else if elapsed >= startupTimeout \{`,
+		`\w+, \w+ := t\.rpc\.GetState\(`,
+		`if \w+ == "STANDBY" && \w+ == nil \{`,
+		`\} else if \w+ == "DONE" \|\| \w+ == "ERROR" \{`,
+		`\} else if \w+ >= startupTimeout \{`,
 		`t\.sendStatus\(t\.knownEnvironmentId, mesos\.TASK_RUNNING, ""\)`,
 		`err = taskCmd\.Wait\(\)`,
-		`select \{ case pending := <-t\.pendingFinalTaskStateCh: pendingState = pending default: \}`,
+		`select \{ case \w+ := <-t\.pendingFinalTaskStateCh: \w+ = \w+ default: \}`,
 		`t\.rpc = nil`,
-		`t\.sendStatus\(t\.knownEnvironmentId, pendingState, ""\)`)
+		`t\.sendStatus\(t\.knownEnvironmentId, \w+, ""\)`)
 
 	var b strings.Builder
 	b.WriteString("(* regenerated on every run by harness/cmd/translate (exectask) from\n   executor/executable/{controllabletask,basictaskcommon,task}.go *)\n")
